@@ -4,7 +4,8 @@ import OsloModel.Slug
 open Oslo Oslo.Proto Oslo.Encode Oslo.Slug
 
 /-
-Requests (fields TAB-separated; names/text hex of UTF-8, bytes hex, `-` empty, `N` is None):
+Requests (fields TAB-separated; names/text hex of UTF-8, bytes hex, `-` empty, `N` is None; for the
+optional parameters incoming / encoding / errors `D` means "not passed by the caller"):
   dec  <vk> <val> <incoming|N> <errors> <stdin|N> <default>
   enc  <vk> <val> <incoming|N> <encoding> <errors> <stdin|N> <default>
   utf8 <vk> <val>
@@ -31,6 +32,10 @@ def parsePolicy : String → Option Policy
 def parseOptName (s : String) : Option (Option Name) :=
   if s = "N" then some none else (unhexChars s).map some
 
+/-- an optional parameter of the call: `D` = not passed (the model's pinned default applies) -/
+def parseArg {α : Type} (f : String → Option α) (s : String) : Option (Option α) :=
+  if s = "D" then some none else (f s).map some
+
 def showErr : Err → String
   | .typeError => "err:TypeError"
   | .unicodeDecodeError => "err:UnicodeDecodeError"
@@ -47,22 +52,25 @@ def showBytes : Except Err Bytes → String
 
 def handle : List String → String
   | ["dec", vk, val, inc, pol, sin, dflt] =>
-    match parseVal vk val, parseOptName inc, parsePolicy pol, parseOptName sin, unhexChars dflt with
-    | some v, some inc, some p, some sin, some d => showText (safeDecode real ⟨sin, d⟩ v inc p)
+    match parseVal vk val, parseArg parseOptName inc, parseArg parsePolicy pol, parseOptName sin,
+          unhexChars dflt with
+    | some v, some inc, some p, some sin, some d => showText (callSafeDecode real ⟨sin, d⟩ v inc p)
     | _, _, _, _, _ => "bad-request"
   | ["enc", vk, val, inc, enc, pol, sin, dflt] =>
-    match parseVal vk val, parseOptName inc, unhexChars enc, parsePolicy pol, parseOptName sin,
-          unhexChars dflt with
+    match parseVal vk val, parseArg parseOptName inc, parseArg unhexChars enc, parseArg parsePolicy pol,
+          parseOptName sin, unhexChars dflt with
     | some v, some inc, some enc, some p, some sin, some d =>
-      showBytes (safeEncode real ⟨sin, d⟩ v inc enc p)
+      showBytes (callSafeEncode real ⟨sin, d⟩ v inc enc p)
     | _, _, _, _, _, _ => "bad-request"
   | ["utf8", vk, val] =>
     match parseVal vk val with
     | some v => showBytes (toUtf8 real v)
     | none => "bad-request"
   | ["slug", vk, val, inc, pol, sin, dflt] =>
-    match parseVal vk val, parseOptName inc, parsePolicy pol, parseOptName sin, unhexChars dflt with
-    | some v, some inc, some p, some sin, some d => showText (toSlug real ⟨sin, d⟩ asciiFront v inc p)
+    match parseVal vk val, parseArg parseOptName inc, parseArg parsePolicy pol, parseOptName sin,
+          unhexChars dflt with
+    | some v, some inc, some p, some sin, some d =>
+      showText (callToSlug real ⟨sin, d⟩ asciiFront v inc p)
     | _, _, _, _, _ => "bad-request"
   | ["pipe", val] =>
     match unhexChars val with
